@@ -77,6 +77,10 @@ def gen_plan(pid, seed, idx, profile):
         cfg["uniform"] = [0.0]
     elif u < 0.4:
         cfg["uniform"] = [1.0]
+    if r.random() < 0.15:
+        # a second SD stack lives in the same process (10.0.0.5): its own short-period offers and answers, own queues
+        cfg["neighbour"] = {"timings": {"INITIAL_DELAY_MIN": 0.0, "INITIAL_DELAY_MAX": 0.1, "REPETITIONS_MAX": 2, "REPETITIONS_BASE_DELAY": 0.03, "CYCLIC_OFFER_DELAY": r.choice([0.11, 0.37]),
+                                        "SEND_COLLECTION_TIMEOUT": timings["SEND_COLLECTION_TIMEOUT"], "SUBSCRIBE_REFRESH_INTERVAL": None}, "start_at": r.choice([0.0, 0.3])}
     use_helper = r.random() < profile.get("helper", 0)
     if use_helper:
         cfg["helper"] = HELPER
@@ -134,6 +138,19 @@ def gen_plan(pid, seed, idx, profile):
                 ops[-1]["a"] = [insts.index(ins)]
             t = ops[-1]["t"]
             disturbed = True
+        elif kind == "find" and r.random() < 0.12:
+            # a request is pending (request-response delay, collection window) while the instance it matches is stopped
+            # and started again: the new incarnation is not ready before its own first offer
+            i = r.randrange(n)
+            ins = insts[i]
+            ops.append({"k": "sd", "t": round(t, 9), "p": r.randrange(3), "ch": r.choice("mmu"), "e": [["find", ins["svc"], r.choice([ins["inst"], 0xFFFF]), 0xFF, 0xFFFFFFFF, 3]]})
+            tt = t + r.choice([0.0, 0.001, 0.004, 0.02, 0.04])
+            f1, f2 = r.choice([("stop_announce", "announce"), ("ann_stop", "ann_start"), ("stop", "start")])
+            ops.append({"k": "call", "t": round(tt, 9), "f": f1, "a": [i] if f1 == "stop_announce" else []})
+            tt += r.choice([0.0, 0.0, 0.001, 0.01])
+            ops.append({"k": "call", "t": round(tt, 9), "f": f2, "a": [i] if f2 == "announce" else []})
+            t = tt
+            disturbed = True
         elif kind == "find" and r.random() < 0.2:
             # a requester restarts (or its datagrams are reordered) while an answer to it is pending: the answer to the
             # earlier request, the answer to the request that reveals the reboot and every later one are still owed
@@ -164,10 +181,12 @@ def gen_plan(pid, seed, idx, profile):
             ops.append({"k": "sd", "t": t, "p": r.randrange(3), "ch": ch, "e": ents})
             disturbed = True
         elif kind == "queue":
-            m = r.choice([1, 1, 2, 5, 17, 40])
+            m = r.choice([1, 1, 2, 5, 17, 40, 60, 130])  # up to far more than fits a 1400-byte datagram
             dest = r.choice([None, 0, 1, 2, ["10.0.0.11", 30491], ["10.0.0.11", 30492]])  # incl. two more endpoints on peer 0's host
             for q in range(m):
                 spec = ["offer", 0x6000 + r.randrange(3), q + 1, 1, q, r.choice([0, 3])] if r.random() < 0.7 else ["suback", 0x6000, 1, 1, q + 1, 3, q % 16]
+                if spec[0] == "offer" and m >= 40 and r.random() < 0.8:
+                    spec.append([["ep", 4, "10.0.0.1", 17, 30500 + q % 2]])
                 d2 = dest
                 if q % 3 == 2 and isinstance(dest, (int, list)) and r.random() < 0.5:
                     d2 = r.choice([0, ["10.0.0.11", 30491]])  # interleave a second destination inside the same window
